@@ -294,7 +294,11 @@ def free_programs(rng, n, present):
         p += setup
         if i % 3 == 1:
             p.append("Second")                 # a second threaded target selected by the same call sites
-        kind = i % 4
+        kind = i % 5
+        if kind == 4:                          # the target is closed while the logging thread still has a backlog for it
+            p += ["Burst %d %d 0" % (rng.randint(20, 300), rng.choice([40, 200])), "Close", "Sleep 2000", "Fini"]
+            progs.append(p)
+            continue
         if kind == 0:                          # burst against a held worker: fills the backlog, drops, report
             ln = rng.choice([100, 250, 400, 500])
             fill = 512000 // (ln + 49) + 1
